@@ -100,7 +100,7 @@ class Model:
         if e in ("@drop", "@rst", "BOOM"):
             self._end(i)
             return []
-        if e in ("PASV", "LIST"):
+        if e in ("PASV", "LIST", "", "FOO"):
             return None          # replies of these are C05's business; here only the accounting matters
         raise ValueError(e)
 
@@ -229,7 +229,7 @@ def final_probe(rig, model, hist):
 
 
 ALPHABET = ["@connect", "USER alice", "USER bob", "USER nobody", "PASS pw", "PASS bad", "QUIT", "@drop", "@rst", "BOOM",
-            "PASV", "LIST"]      # LIST without a data connection: a worker waits, then 425 - the session may end meanwhile
+            "PASV", "LIST", "", "FOO"]      # an empty line and an unknown verb; # LIST without a data connection: a worker waits, then 425 - the session may end meanwhile
 
 
 def expand(item):
